@@ -28,8 +28,8 @@ class CheckSpec:
     run_one: Callable[[int, int], dict]
     # replay_fn(replay_doc) -> list[{"oracle","step","msg"}]
     replay_fn: Callable[[dict], list]
-    runs: dict = field(default_factory=lambda: {"quick": 2000, "thorough": 40000})
-    wall_cap_s: dict = field(default_factory=lambda: {"quick": 100, "thorough": 1500})
+    runs: dict = field(default_factory=lambda: {"quick": 8000, "thorough": 250000})
+    wall_cap_s: dict = field(default_factory=lambda: {"quick": 120, "thorough": 1500})
     assumptions: list = field(default_factory=list)
     components: dict = field(default_factory=dict)
     minimise_fn: Callable | None = None
